@@ -193,6 +193,15 @@ func (c *Ctx) c14V4Accessor() {
 		}
 	}
 	if dleqStore == nil {
+		// the per-proof conversion moved into a helper that is new on this tree
+		if hs := c.dleqStoreInHelper(f); hs != nil {
+			src := "elem(elem(" + recv + ".TokenProofs).Proofs).DLEQ"
+			c.dleqHelperForm("R2", f, hs, func(k string) string { return fnHexEncode + "(" + src + "." + k + ")" },
+				[]*Cond{{Name: "entry has a DLEQ", Match: func(f2 *Fact, _ *Origins) bool { return f2.Kind == "nil" && !f2.Pos && f2.A.String() == src }}},
+				&Cond{Name: "this entry has no DLEQ", Match: func(f2 *Fact, _ *Origins) bool { return f2.Kind == "nil" && f2.Pos && f2.A.String() == src }},
+				"DLEQ store <= entry has a DLEQ", "the rebuilt DLEQ carries e, s and r of the stored one")
+			return
+		}
 		R.Check("R2", fk, "DLEQ copied when present", c.P.Pos(f.Pos()), false, "the accessor copies the DLEQ of a proof when it has one", "no store into a DLEQ field")
 		return
 	}
@@ -370,9 +379,22 @@ func (c *Ctx) c14V4Builder() {
 		}
 	}
 	if dleqStore == nil {
-		R.Check("R2", fk, "DLEQ attached when requested", c.P.Pos(f.Pos()), false, "the builder attaches the DLEQ when requested", "no store into a DLEQ field")
-		return
+		if hs := c.dleqStoreInHelper(f); hs != nil {
+			c.dleqHelperForm("R2", f, hs, func(k string) string { return fnHexDecode + "#0(" + el + ".DLEQ." + k + ")" },
+				[]*Cond{
+					{Name: "includeDLEQ parameter is true", Match: func(f2 *Fact, _ *Origins) bool { return f2.Kind == "bool" && f2.Pos && f2.A.String() == incl }},
+					{Name: "proof has a DLEQ", Match: func(f2 *Fact, _ *Origins) bool { return f2.Kind == "nil" && !f2.Pos && f2.A.String() == el+".DLEQ" }},
+				},
+				&Cond{Name: "DLEQ not requested (parameter) or absent (this proof)", Match: func(f2 *Fact, _ *Origins) bool {
+					return (f2.Kind == "bool" && !f2.Pos && f2.A.String() == incl) || (f2.Kind == "nil" && f2.Pos && f2.A.String() == el+".DLEQ")
+				}},
+				"", "the attached DLEQ carries the hex-decoded e, s and r of the proof's DLEQ")
+		} else {
+			R.Check("R2", fk, "DLEQ attached when requested", c.P.Pos(f.Pos()), false, "the builder attaches the DLEQ when requested", "no store into a DLEQ field")
+			return
+		}
 	}
+	if dleqStore != nil {
 	dv := fieldsOfWith(o.ContentAt(dleqStore.Val, dleqStore))
 	okD := true
 	for _, k := range []string{"E", "S", "R"} {
@@ -441,6 +463,7 @@ func (c *Ctx) c14V4Builder() {
 		}
 		R.Check("R2", fk, "DLEQ attached whenever present (and requested)", c.P.InstrPos(dleqStore), okC,
 			"on every path where the includeDLEQ parameter is true and the proof has a DLEQ, the DLEQ is attached before the element is stored", whyC)
+	}
 	}
 	// mint url and unit
 	for _, r := range o.SuccessReturns() {
@@ -706,4 +729,74 @@ func (c *Ctx) c14Keys() {
 		}
 		R.Check("R2", "cashu."+tn, "serialisation keys pairwise distinct", "cashu/cashu.go", okK, "no two fields of "+tn+" share a JSON/CBOR key", why)
 	}
+}
+
+// dleqStoreInHelper: the (single) store into a DLEQ field inside a helper that is new on this tree and belongs to f.
+func (c *Ctx) dleqStoreInHelper(f *ssa.Function) *ssa.Store {
+	var found *ssa.Store
+	for _, g := range c.OpFuncs(f) {
+		if g == f || g.Parent() != nil {
+			continue
+		}
+		for _, b := range g.Blocks {
+			for _, in := range b.Instrs {
+				if st, ok := in.(*ssa.Store); ok {
+					if fa, ok := st.Addr.(*ssa.FieldAddr); ok && fieldName(fa) == "DLEQ" {
+						found = st
+					}
+				}
+			}
+		}
+	}
+	return found
+}
+
+// dleqHelperForm asks the DLEQ questions of a conversion helper: in every calling context the stored DLEQ carries
+// e, s, r as wanted; the store lies behind each guard (inside the helper or before its call); and the helper hands
+// back a value without passing the store only over an edge that excuses it (no DLEQ / not requested).
+func (c *Ctx) dleqHelperForm(rule string, f *ssa.Function, st *ssa.Store, want func(field string) string, guards []*Cond, excuse *Cond, guardKey, copyWhat string) {
+	R := c.R
+	fk := c.P.FuncKey(f)
+	h := st.Parent()
+	ctxs := c.CtxsOf(st)
+	okD, detail := len(ctxs) > 0, ""
+	for _, oc := range ctxs {
+		val := oc.ContentAt(st.Val, st)
+		fs := fieldsOfWith(val)
+		for _, k := range []string{"E", "S", "R"} {
+			if fs[k] == nil || fs[k].String() != want(k) {
+				okD = false
+				detail = short(val.String(), 200)
+			}
+		}
+	}
+	R.Check(rule, fk, "DLEQ fields e, s, r copied", c.P.InstrPos(st), okD, copyWhat, detail)
+	for _, cd := range guards {
+		ok, why := c.RequireAt(st, cd)
+		key := "DLEQ store <= " + cd.Name
+		if guardKey != "" {
+			key = guardKey
+		}
+		R.Check(rule, fk, key, c.P.InstrPos(st), ok, "the DLEQ is attached only when ["+cd.Name+"]", why)
+	}
+	okC, whyC := len(ctxs) > 0, ""
+	for _, oc := range ctxs {
+		cut := NewCut()
+		for e := range oc.AcceptEdges(excuse) {
+			cut.Edges[e] = true
+		}
+		cut.Barriers[st] = true
+		rets := oc.SuccessReturns()
+		if len(rets) == 0 {
+			okC, whyC = false, "the conversion helper has no success return"
+		}
+		for _, r := range rets {
+			if reach, path := Reach(Point{h.Blocks[0], 0}, PointOf(r), cut); reach {
+				okC = false
+				whyC = "the helper returns the element without the DLEQ on a path that is not excused by [" + excuse.Name + "]: " + c.P.PathString(path)
+			}
+		}
+	}
+	R.Check(rule, fk, "DLEQ attached whenever present (and requested)", c.P.InstrPos(st), okC,
+		"on every path where the proof has a DLEQ (and it is requested) the DLEQ is attached before the element is handed back", whyC)
 }
